@@ -357,6 +357,12 @@ def reported(P, E, chk, bh):
             if pth and C.ir.path_str(pth) == "outpkt.sentlen":
                 v = sk(val) if val is not None else None
                 ok = v is not None and (cval(v) == 0 or (v.get("k") == "Call" and v.get("fn") == "build_hostname"))
+                if not ok and v is not None and v.get("k") == "Ref" and v["ref"].get("rk") == "local":
+                    # the count travels through a temporary (a wrapper's return value): on every path it still holds
+                    # build_hostname's result
+                    ds_ = E.analysis(f).before_node(node["n"]) or []
+                    ok = bool(ds_) and all(any(g.kind == "cmp" and g.op == "==" and g.key[0] == pp(v) and sk(g.r).get("k") == "Call" and
+                                               sk(g.r).get("fn") == "build_hostname" for g in d) for d in ds_)
                 chk.site(r6, f, ir.loc(node), pp(node)[:60], ok, "assigned from build_hostname's return or 0" if ok else
                          "sentlen assigned from something else than the builder's reported length")
             if pth and C.ir.path_str(pth) == "outpkt.offset":
